@@ -411,6 +411,27 @@ def fixed_checks(rep):
             ok = st == "ok" and seen and len(seen[-1][0]) == 2 and type(seen[-1][0][1]) is type(val) and seen[-1][0][1] == val and type(seen[-1][1].get("k")) is type(val)
             if not ok:
                 rep.violation({"clause": "name_bound_to_false_value_not_passed_as_is", "pow_issue": False, "site": "VarLookupDict"}, {"value": repr(val), "how": how, "status": st, "error": str(dm)[:100] if st != "ok" else "", "received": repr(seen[-1:])[:160]})
+    # a dotted callee denotes whatever the names denote NOW, as in Python: the attribute is looked up at every
+    # evaluation (a module that was reloaded, an attribute that was reassigned, another object under the same name)
+    import types
+
+    helpers = types.SimpleNamespace(rescale=lambda v, by=1: np.asarray(v, dtype=float) * by, sub=types.SimpleNamespace(fn=lambda v: np.asarray(v, dtype=float) + 1))
+    steps = [
+        ("first binding", lambda: None),
+        ("attribute reassigned", lambda: setattr(helpers, "rescale", lambda v, by=1: np.asarray(v, dtype=float) / by)),
+        ("inner attribute reassigned", lambda: setattr(helpers.sub, "fn", lambda v: np.asarray(v, dtype=float) - 1)),
+        ("another object under the same name", lambda: None),
+    ]
+    other = types.SimpleNamespace(rescale=lambda v, by=1: np.asarray(v, dtype=float) * 0 + by, sub=types.SimpleNamespace(fn=lambda v: np.asarray(v, dtype=float) * 7))
+    for how, act in steps:
+        act()
+        obj = other if how.startswith("another") else helpers
+        for text in ("helpers.rescale(x + z, by=4)", "helpers.sub.fn(x)"):
+            st, dm = design.build("y ~ 0 + " + text, df, extra_namespace={"helpers": obj})
+            want = eval(text, {"helpers": obj, "x": df["x"], "z": df["z"]})  # pylint: disable=eval-used
+            rep.cov["evaluations"] += 1
+            if st != "ok" or not np.allclose(np.asarray(dm.common)[:, 0], want):
+                rep.violation({"clause": "dotted_callee_not_looked_up_at_evaluation", "pow_issue": False, "site": "get_function_from_module"}, {"call": text, "step": how, "status": st})
     # quote style is kept in the name; textual variants are one term, different calls different terms
     for a, b, same in (("g(x,'a')", "g( x , 'a' )", True), ("g(x, 'a')", 'g(x, "a")', False), ("g(x, 1)", "g(x, 1.0)", False), ("g(x, k=1)", "g(x,k = 1)", True)):
         sa, da = design.build("y ~ 0 + " + a, df, extra_namespace=ns)
